@@ -639,26 +639,26 @@ static void addUnit(const std::string & name, int minTier, int dq, int dt, int f
 static struct Register {
 	Register() {
 #if SEL(0)
-		addUnit<SList<MT> >(VERIF_PREFIX "/CallbackList/multi", 0, 3, 5, 1, 2);
-		addUnit<SList<ST> >(VERIF_PREFIX "/CallbackList/single", 1, 3, 5, 1, 2);
+		addUnit<SList<MT> >(VERIF_PREFIX "/CallbackList/multi", 0, 5, 10, 1, 2);
+		addUnit<SList<ST> >(VERIF_PREFIX "/CallbackList/single", 1, 5, 10, 1, 2);
 #endif
 #if SEL(1)
-		addUnit<SDisp<MT, false> >(VERIF_PREFIX "/EventDispatcher/std::map/throwing-key", 0, 3, 4, 1, 2);
-		addUnit<SDisp<MT, true> >(VERIF_PREFIX "/EventDispatcher/std::unordered_map/throwing-key", 0, 3, 4, 1, 2);
+		addUnit<SDisp<MT, false> >(VERIF_PREFIX "/EventDispatcher/std::map/throwing-key", 0, 4, 8, 1, 2);
+		addUnit<SDisp<MT, true> >(VERIF_PREFIX "/EventDispatcher/std::unordered_map/throwing-key", 0, 4, 8, 1, 2);
 #endif
 #if SEL(2)
-		addUnit<SQueue<MT, false, false> >(VERIF_PREFIX "/EventQueue/multi", 0, 3, 4, 1, 2);
+		addUnit<SQueue<MT, false, false> >(VERIF_PREFIX "/EventQueue/multi", 0, 4, 8, 1, 2);
 #endif
 #if SEL(3)
-		addUnit<SQueue<MT, true, false> >(VERIF_PREFIX "/EventQueue/ordered-throwing-comparator", 0, 3, 4, 1, 2);
-		addUnit<SQueue<MT, false, true> >(VERIF_PREFIX "/EventQueue/filter", 0, 3, 4, 1, 2);
+		addUnit<SQueue<MT, true, false> >(VERIF_PREFIX "/EventQueue/ordered-throwing-comparator", 0, 4, 7, 1, 2);
+		addUnit<SQueue<MT, false, true> >(VERIF_PREFIX "/EventQueue/filter", 0, 4, 7, 1, 2);
 #endif
 #if SEL(4)
-		addUnit<SHeter<MT> >(VERIF_PREFIX "/Heterogeneous/multi", 0, 3, 4, 1, 2);
-		addUnit<SRemovers<MT> >(VERIF_PREFIX "/Removers/multi", 0, 3, 4, 1, 2);
+		addUnit<SHeter<MT> >(VERIF_PREFIX "/Heterogeneous/multi", 0, 4, 8, 1, 2);
+		addUnit<SRemovers<MT> >(VERIF_PREFIX "/Removers/multi", 0, 4, 8, 1, 2);
 #endif
 #if SEL(5)
-		addUnit<SHeterQueue<MT> >(VERIF_PREFIX "/HeterEventQueue/multi", 0, 3, 4, 1, 2);
+		addUnit<SHeterQueue<MT> >(VERIF_PREFIX "/HeterEventQueue/multi", 0, 4, 8, 1, 2);
 #endif
 	}
 } reg;
